@@ -1,10 +1,10 @@
 SPECIFICATION Spec
 CONSTANTS
   TW = 2
-  MaxN = 9
+  MaxN = 6
   Deltas = {0, 1, 3}
-  Guard1 = TRUE
-  Guard4 = TRUE
+  Guard1 = FALSE
+  Guard4 = FALSE
   EdgeSlack = 0
   ExpLess = 0
   SizeFrom = "pub"
